@@ -108,6 +108,7 @@ type Ctx struct {
 	nontrivial map[uint64]struct{}
 	outcomes   map[uint64]struct{}
 	cur        *T
+	lastBeat   time.Time
 }
 
 // T is the per-case handle.
@@ -148,6 +149,7 @@ func (c *Ctx) Case(name string, fn func(t *T)) {
 	}
 	fmt.Fprintf(c.out, "S %d %s\n", i, name)
 	c.out.Flush()
+	c.lastBeat = time.Now()
 	t := &T{c: c, Name: name}
 	c.cur = t
 	func() {
@@ -201,7 +203,20 @@ func (t *T) Guard(prefix string, fn func()) (panicked bool) {
 }
 
 // Eval counts n evaluations (inputs tried / executions run).
-func (t *T) Eval(n int) { t.c.stats.Evaluations += int64(n) }
+//
+// Every evaluation is also a sign of life: a case may enumerate for longer than the watchdog period as long as the
+// library calls it makes keep returning. The watchdog is about a call that does not terminate, not about the size of
+// an enumeration, so a heartbeat line (at most one per 10 s) re-arms it.
+func (t *T) Eval(n int) {
+	t.c.stats.Evaluations += int64(n)
+	if now := time.Now(); now.Sub(t.c.lastBeat) > 10*time.Second {
+		t.c.lastBeat = now
+		if t.c.out != nil {
+			fmt.Fprintf(t.c.out, "H 1\n")
+			t.c.out.Flush()
+		}
+	}
+}
 
 // Nontrivial records a distinct non-trivial case class (counted distinct by its string).
 func (t *T) Nontrivial(class string) { t.c.nontrivial[h64(class)] = struct{}{} }
@@ -461,6 +476,10 @@ func runWorker(p Property, cfg Config, tier string, shard, nshards int, deadline
 				}
 				lastStart = time.Now()
 				inCase = true
+				mu.Unlock()
+			case 'H':
+				mu.Lock()
+				lastStart = time.Now()
 				mu.Unlock()
 			case 'E':
 				mu.Lock()
